@@ -513,11 +513,26 @@ fn damage(kind: &'static str, f: &str, content: &str, rng: &mut Rng) -> Option<E
 // Input feature used to identify known finding KF-C04-4: a type-alias cycle with no type
 // constructor in between (`type A = A`, `type A = B; type B = A`, `type A = A | "x"`).
 // ---------------------------------------------------------------------------------------------
-fn direct_refs(t: &TsType, out: &mut Vec<String>) {
+#[derive(Clone, Debug)]
+enum DirectRef {
+    Local(String),
+    /// `import("spec").Name` (Some) or `import("spec")` = the default export (None)
+    Import(String, Option<String>),
+}
+
+fn direct_refs(t: &TsType, out: &mut Vec<DirectRef>) {
     match t {
         TsType::TsTypeRef(r) => {
             if let TsEntityName::Ident(i) = &r.type_name {
-                out.push(i.sym.to_string());
+                out.push(DirectRef::Local(i.sym.to_string()));
+            }
+        }
+        TsType::TsImportType(i) => {
+            let spec = i.arg.value.to_string_lossy().to_string();
+            match &i.qualifier {
+                None => out.push(DirectRef::Import(spec, None)),
+                Some(TsEntityName::Ident(q)) => out.push(DirectRef::Import(spec, Some(q.sym.to_string()))),
+                _ => {}
             }
         }
         TsType::TsUnionOrIntersectionType(TsUnionOrIntersectionType::TsUnionType(u)) => {
@@ -540,9 +555,10 @@ fn direct_refs(t: &TsType, out: &mut Vec<String>) {
 
 pub fn noncontractive_alias_cycle(fs: &Fs) -> Option<(String, String)> {
     use std::collections::{BTreeMap, BTreeSet};
-    // (file, alias) -> direct refs ; (file, local) -> (spec, original)
-    let mut aliases: BTreeMap<(String, String), Vec<String>> = BTreeMap::new();
+    // (file, alias) -> direct refs ; (file, local) -> (spec, original) ; file -> default export name
+    let mut aliases: BTreeMap<(String, String), Vec<DirectRef>> = BTreeMap::new();
     let mut imports: BTreeMap<(String, String), (String, String)> = BTreeMap::new();
+    let mut defaults: BTreeMap<String, String> = BTreeMap::new();
     for (path, content) in fs {
         let cm: Lrc<SourceMap> = Default::default();
         let fm = cm.new_source_file(FileName::Custom(path.to_string()).into(), content.to_string());
@@ -560,29 +576,70 @@ pub fn noncontractive_alias_cycle(fs: &Fs) -> Option<(String, String)> {
                 // later declarations of the same name win in beff's symbol tables
                 aliases.insert((path.clone(), a.id.sym.to_string()), refs);
             }
-            if let ModuleItem::ModuleDecl(ModuleDecl::Import(i)) = it {
-                for s in &i.specifiers {
-                    if let ImportSpecifier::Named(n) = s {
-                        let orig = match &n.imported {
-                            Some(ModuleExportName::Ident(x)) => x.sym.to_string(),
-                            _ => n.local.sym.to_string(),
-                        };
-                        imports.insert((path.clone(), n.local.sym.to_string()), (i.src.value.to_string_lossy().to_string(), orig));
+            match it {
+                ModuleItem::ModuleDecl(ModuleDecl::Import(i)) => {
+                    for s in &i.specifiers {
+                        match s {
+                            ImportSpecifier::Named(n) => {
+                                let orig = match &n.imported {
+                                    Some(ModuleExportName::Ident(x)) => x.sym.to_string(),
+                                    _ => n.local.sym.to_string(),
+                                };
+                                imports.insert((path.clone(), n.local.sym.to_string()), (i.src.value.to_string_lossy().to_string(), orig));
+                            }
+                            ImportSpecifier::Default(d) => {
+                                imports.insert((path.clone(), d.local.sym.to_string()), (i.src.value.to_string_lossy().to_string(), "default".to_string()));
+                            }
+                            _ => {}
+                        }
                     }
                 }
+                ModuleItem::ModuleDecl(ModuleDecl::ExportDefaultExpr(e)) => {
+                    if let Expr::Ident(i) = &*e.expr {
+                        defaults.entry(path.clone()).or_insert(i.sym.to_string());
+                    }
+                }
+                ModuleItem::ModuleDecl(ModuleDecl::ExportNamed(n)) if n.src.is_none() => {
+                    for s in &n.specifiers {
+                        if let ExportSpecifier::Named(x) = s {
+                            let exported = match &x.exported {
+                                Some(ModuleExportName::Ident(e)) => e.sym.to_string(),
+                                _ => continue,
+                            };
+                            if exported == "default" {
+                                if let ModuleExportName::Ident(o) = &x.orig {
+                                    defaults.entry(path.clone()).or_insert(o.sym.to_string());
+                                }
+                            }
+                        }
+                    }
+                }
+                _ => {}
             }
         }
     }
-    let target = |file: &str, name: &str| -> Option<(String, String)> {
-        if aliases.contains_key(&(file.to_string(), name.to_string())) {
-            return Some((file.to_string(), name.to_string()));
-        }
-        let (spec, orig) = imports.get(&(file.to_string(), name.to_string()))?;
-        let g = crate::host::resolve_in(fs, file, spec)?;
-        if aliases.contains_key(&(g.clone(), orig.clone())) {
-            Some((g, orig.clone()))
+    let in_file = |g: &str, name: &str| -> Option<(String, String)> {
+        let name = if name == "default" { defaults.get(g)?.clone() } else { name.to_string() };
+        if aliases.contains_key(&(g.to_string(), name.clone())) {
+            Some((g.to_string(), name))
         } else {
             None
+        }
+    };
+    let target = |file: &str, r: &DirectRef| -> Option<(String, String)> {
+        match r {
+            DirectRef::Local(name) => {
+                if aliases.contains_key(&(file.to_string(), name.clone())) {
+                    return Some((file.to_string(), name.clone()));
+                }
+                let (spec, orig) = imports.get(&(file.to_string(), name.clone()))?;
+                let g = crate::host::resolve_in(fs, file, spec)?;
+                in_file(&g, orig)
+            }
+            DirectRef::Import(spec, q) => {
+                let g = crate::host::resolve_in(fs, file, spec)?;
+                in_file(&g, q.as_deref().unwrap_or("default"))
+            }
         }
     };
     for start in aliases.keys() {
